@@ -453,7 +453,11 @@ def c07_exprs(rnd, budget):
                     [BOOL(bo, CMP("Eq", st(a), C(S(x))), CMP("Eq", st(b), C(S(y)))) for bo in ("And", "Or")
                      for a, x, b, y in ((I(1), "1", B(True), "True"), (B(True), "True", I(1), "1"), (I(0), "0", B(False), "False"), (B(False), "0", I(0), "False"), (B(True), "1", I(1), "True"))] + \
                     [CMP("In", st(B(True)), LST(st(I(1)), C(S("x")))), CMP("In", st(I(0)), TUP(st(B(False)))), CMP("Eq", LST(st(I(1)), st(B(True))), LST(C(S("1")), C(S("True"))))]
-    groups = {"call_literals": call_literals, "kinds": kinds, "typed": typed, "ip_path": iph, "cmp": cmps, "bin": [CMP("Eq", b, C(I(2))) for b in bins] + bins, "call": calls, "chain": chains, "gen": gens, "l2cmp": l2, "neg": negs, "bool": bools, "not": nots, "helper": helpers, "gen2": gen2, "unsupported": unsup, "gen_named": gen_named, "typed_chain": tchains, "gen2x": gen2x}
+    # text whose lower-case form is NOT its case-folded form (round g): lower() is Python's str.lower -- sharp s stays sharp s
+    lo = lambda t: CALL("lower", C(S(t)))
+    case_text = [CMP("Eq", lo("Stra\u00dfe"), C(S("stra\u00dfe"))), CMP("Eq", lo("Stra\u00dfe"), C(S("strasse"))), CMP("In", C(S("\u00df")), lo("MA\u00df")), CMP("In", C(S("ss")), lo("MA\u00df")),
+                 CMP("NotEq", lo("\u00df"), C(S("ss"))), BOOL("And", CMP("Eq", lo("A\u00df"), C(S("a\u00df"))), CMP("Eq", F("s"), F("s")))]
+    groups = {"call_literals": call_literals, "kinds": kinds, "typed": typed, "ip_path": iph, "cmp": cmps, "bin": [CMP("Eq", b, C(I(2))) for b in bins] + bins, "call": calls, "chain": chains, "gen": gens, "l2cmp": l2, "neg": negs, "bool": bools, "not": nots, "helper": helpers, "gen2": gen2, "unsupported": unsup, "gen_named": gen_named, "typed_chain": tchains, "gen2x": gen2x, "case_text": case_text}
     total = sum(len(g) for g in groups.values())
     out = []
     # groups of moderate size are ALWAYS taken completely (a sample of them once lost the only expressions that tell a
